@@ -985,7 +985,11 @@ pub enum Ty {
     Int,
 }
 
-pub const FIELDS: [(&str, Ty); 8] = [
+/// (two names begin with the letters of the NOT keyword: a goal is negated by the WORD `NOT`, not
+/// by a name that happens to start like it)
+pub const FIELDS: [(&str, Ty); 10] = [
+    ("Notice.b", Ty::Bool),
+    ("NOTES", Ty::Str),
     ("A", Ty::Bool),
     ("B", Ty::Bool),
     ("S", Ty::Str),
